@@ -162,6 +162,7 @@ def krylov_rules(chk, repo, P='C14'):
     linearity_rule(chk, repo, f'{P}.R6', consumers=(P != 'C14'))
     bookkeeping_rule(chk, repo, f'{P}.R7')
     written_rows_rule(chk, repo, f'{P}.R8')
+    scale_rule(chk, repo, f'{P}.R9')
     from . import support
     only = {'krylov.lanczos_iteration', 'krylov.arnoldi_iteration'} if P == 'C14' else None
     n5 = support.defassign_rules(chk, repo, f'{P}.R5', {'krylov'}, {}, only=only)
@@ -213,6 +214,21 @@ def written_rows_rule(chk, repo, rid):
         if len(stores) != 1 or stores[0][1].coeff(j) != 1:
             raise AnalysisError(f'{q}: expected one store of a new basis row per pass')
         ps, e = stores[0]
+        # a `break` at a fixed pass in front of the store ends the writing there: `if j == X: break`
+        jnames = {}
+        for s_ in body:
+            if isinstance(s_, ast.Assign) and len(s_.targets) == 1 and isinstance(s_.targets[0], ast.Name):
+                a_ = try_affine(s_.value, jnames)
+                if a_ is not None:
+                    jnames[s_.targets[0].id] = a_
+        for x in lp.body[:ps]:
+            if isinstance(x, ast.If) and not x.orelse and x.body and isinstance(x.body[-1], ast.Break) and \
+                    isinstance(x.test, ast.Compare) and len(x.test.ops) == 1 and isinstance(x.test.ops[0], (ast.Eq, ast.GtE)):
+                l_, r_ = try_affine(x.test.left, jnames), try_affine(x.test.comparators[0], jnames)
+                if l_ is not None and r_ is not None and l_ == Affine.sym(j):
+                    d = r_ - last
+                    if d.is_const() and d.c <= 0:
+                        last = r_ - one
         w = where(repo, fi, lp)
         chk.ob(rid, w, f'{fi.name}: the row written in the first pass follows the row of the start vector',
                e.subst(j, first) == w0 + one, f'start vector in row {w0}, first pass writes row {e.subst(j, first)}',
@@ -265,6 +281,114 @@ def written_rows_rule(chk, repo, rid):
                 found += 1
         if not found:
             raise AnalysisError(f'{q}: no return statement handing back the basis found')
+    return n
+
+
+def scale_rule(chk, repo, rid):
+    """comparisons inside the iterations are between quantities of the same homogeneity degree in the start vector"""
+    chk.rule(rid, 'scale invariance of the iterations: the start vector is normalised first, so every quantity computed afterwards '
+                  'has homogeneity degree 0 in it (the map is linear) while its norm has degree 1; every comparison inside the '
+                  'iterations - in particular the breakdown test - is between quantities of the same degree, so that rescaling the '
+                  'start vector cannot change which vectors are produced (degree typing over the function body)')
+    n = 0
+    for q in PRODUCERS.values():
+        fi = kfunc(repo, q)
+        vs = fi.params[1]
+        afunc = fi.params[0]
+        env = {vs: 1}
+
+        def deg(e):
+            if isinstance(e, ast.Constant):
+                return 0 if isinstance(e.value, (int, float, complex)) else None
+            if isinstance(e, ast.Name):
+                return env.get(e.id, 0 if e.id in fi.params and e.id != vs else None)
+            if isinstance(e, ast.Attribute):
+                if e.attr in ('real', 'imag', 'T'):
+                    return deg(e.value)
+                if e.attr in ('eps', 'shape', 'size', 'dtype'):
+                    return 0
+                return None
+            if isinstance(e, ast.Subscript):
+                return deg(e.value)
+            if isinstance(e, ast.UnaryOp):
+                return deg(e.operand)
+            if isinstance(e, ast.IfExp):
+                a, b = deg(e.body), deg(e.orelse)
+                if isinstance(e.orelse, ast.Constant) and e.orelse.value == 0:
+                    return a
+                return a if a == b else None
+            if isinstance(e, ast.BinOp):
+                a, b = deg(e.left), deg(e.right)
+                if a is None or b is None:
+                    return None
+                if isinstance(e.op, ast.Mult):
+                    return a + b
+                if isinstance(e.op, ast.Div):
+                    return a - b
+                if isinstance(e.op, (ast.Add, ast.Sub)):
+                    if isinstance(e.left, ast.Constant) and e.left.value == 0:
+                        return b
+                    if isinstance(e.right, ast.Constant) and e.right.value == 0:
+                        return a
+                    return a if a == b else None
+                if isinstance(e.op, ast.Pow) and isinstance(e.right, ast.Constant) and isinstance(e.right.value, (int, float)):
+                    return a * e.right.value
+                return None
+            if isinstance(e, ast.Call):
+                f = norm(e.func)
+                if f in ('len', 'np.finfo', 'range', 'int', 'float'):
+                    return 0
+                if f in ('np.linalg.norm', 'abs', 'np.abs', 'np.real', 'np.conj', 'np.sqrt') and e.args:
+                    d = deg(e.args[0])
+                    return None if d is None else (d / 2 if f == 'np.sqrt' else d)
+                if f in ('np.vdot', 'np.dot', 'np.inner') and len(e.args) == 2:
+                    a, b = deg(e.args[0]), deg(e.args[1])
+                    return None if a is None or b is None else a + b
+                if f == afunc and e.args:
+                    return deg(e.args[0])
+                if f in ('np.zeros', 'np.empty', 'np.ones', 'np.identity'):
+                    return 0
+                return None
+            return None
+        found = []
+
+        def walk(stmts):
+            for s_ in stmts:
+                if isinstance(s_, ast.Assign) and len(s_.targets) == 1:
+                    d = deg(s_.value)
+                    t = s_.targets[0]
+                    if isinstance(t, ast.Name):
+                        env[t.id] = d
+                    elif isinstance(t, ast.Subscript) and isinstance(t.value, ast.Name):
+                        # a store into an array: the array keeps its degree if it agrees (allocations have degree 0 = "any")
+                        cur = env.get(t.value.id)
+                        if cur in (0, None) or cur == d:
+                            env[t.value.id] = d if d is not None else cur
+                elif isinstance(s_, ast.AugAssign) and isinstance(s_.target, ast.Name):
+                    pass
+                elif isinstance(s_, ast.For):
+                    walk(s_.body)
+                    walk(s_.body)           # second pass: values carried from one pass to the next
+                elif isinstance(s_, ast.If):
+                    for c in ast.walk(s_.test):
+                        if isinstance(c, ast.Compare) and len(c.ops) == 1 and isinstance(c.ops[0], (ast.Lt, ast.LtE, ast.Gt, ast.GtE)):
+                            a, b = deg(c.left), deg(c.comparators[0])
+                            if a is not None and b is not None and not any(c is x[0] for x in found):
+                                found.append((c, a, b))
+                    walk(s_.body)
+                    walk(s_.orelse)
+        walk(fi.node.body)
+        seen = set()
+        for c, a, b in found:
+            if id(c) in seen:
+                continue
+            seen.add(id(c))
+            names = {x.id for x in ast.walk(c) if isinstance(x, ast.Name)}
+            if names <= {'j', 'k', 'numiter'} | {p for p in fi.params if p != vs}:
+                continue                # index tests
+            chk.ob(rid, where(repo, fi, c), f'{fi.name}: `{norm(c)[:60]}` compares quantities of the same degree in the start vector',
+                   a == b, f'left side has degree {a}, right side degree {b}', key=f'{rid}|{q}|{norm(c)[:60]}')
+            n += 1
     return n
 
 
